@@ -102,6 +102,8 @@ class Check(object):
             base = os.path.join(VERIF, '.work')
             os.makedirs(base, exist_ok=True)
             self.workdir = tempfile.mkdtemp(prefix=self.pid + '-', dir=base)
+            # scratch directory for worker processes of the check (removed with the work directory)
+            os.environ['VERIF_WORK_TMP'] = self.workdir
         return self.workdir
 
     def cleanup(self):
